@@ -70,6 +70,12 @@ Theorem C03_data_rate_bits : forall n speed, (n < 256)%N -> (speed = 1 \/ speed 
 Proof. exact rate_value_bits. Qed.
 Print Assumptions C03_data_rate_bits.
 
+(* ... and the data_rate getter's formula, applied to that register content, gives the speed back *)
+Theorem C03_data_rate_getter : forall n speed, (n < 256)%N -> (speed = 1 \/ speed = 2 \/ speed = 250) ->
+  (let b := Z.land (Z.of_N (rate_value n speed)) 40 in if b =? 0 then 1 else if b =? 8 then 2 else 250) = speed.
+Proof. exact rate_value_getter. Qed.
+Print Assumptions C03_data_rate_getter.
+
 Theorem C03_data_rate_rejects : forall me speed d w,
   (me < length (radios w))%nat -> ~ (speed = 1 \/ speed = 2 \/ speed = 250) ->
   exists d1 w1, set_data_rate (WB me) speed d w = (Exn ValueError, d1, w1)
